@@ -147,7 +147,7 @@ pub fn minimise(property: &str, start: Failing) -> (Failing, u64) {
     // reported: the replay file is whatever failing scenario has been reached by then.
     let started = std::time::Instant::now();
     // (the engine leaks every proof tree, so memory bounds the number of candidate runs as well)
-    let in_time = |s: &std::time::Instant| s.elapsed().as_secs() < 20 && crate::exec::resident_kib() < 3_000_000;
+    let in_time = |s: &std::time::Instant| s.elapsed().as_secs() < 20 && crate::exec::resident_kib() < 1_500_000;
     while progress && rounds < 4 && m.tests < 600 && in_time(&started) {
         progress = false;
         rounds += 1;
